@@ -113,7 +113,9 @@ def params(tier):
     return dict(n_closed=1, n_digit=1, n_names=2, empty=True)
 
 
-SPECIAL_NAMES = ["a~b", "ab~", "~ab", "a!b", "a@b", "a(b)", "\u00e9t\u00e9", "a'b", "a|b", "v1.2-rc+1"]
+SPECIAL_NAMES = ["a~b", "ab~", "~ab", "a!b", "a@b", "a(b)", "\u00e9t\u00e9", "a'b", "a|b", "v1.2-rc+1",
+                 "ophe\u0301lie",            # a decomposed accent (as some file systems list names): not the same string as the composed one
+                 "ab ", " ab", "a b", "ab\t"]  # blanks at either end and inside: part of the value
 
 
 def gen(ref, tier):
